@@ -112,9 +112,13 @@ impl<'a, Key, Freq> FrequencyCounterBasedMinHeapSamples<'a, Key, Freq>
     /// Hence, at this stage, `min_frequency_key` returns an Option<SampledKey>
     pub(crate) fn min_frequency_key(&mut self) -> Option<SampledKey> {
         if let Some(key) = self.sample.pop() {
+            #[cfg(feature = "cached_verif")]
+            crate::cache::verif::tap(|| format!("sample.pop {} {} {}", key.id, key.weight, key.estimated_frequency));
             self.current_sample_key_ids.remove(&key.id);
             return Some(key);
         }
+        #[cfg(feature = "cached_verif")]
+        crate::cache::verif::tap(|| "sample.pop none".to_string());
         None
     }
 
@@ -123,6 +127,8 @@ impl<'a, Key, Freq> FrequencyCounterBasedMinHeapSamples<'a, Key, Freq>
     /// Rust's `BinaryHeap` does not provide a `contains` method, so we use a `HashSet` to determine the key_ids that are a part of the current sample.
     pub(crate) fn maybe_fill_in(&mut self) -> bool {
         let mut filled_in: bool = false;
+        #[cfg(feature = "cached_verif")]
+        crate::cache::verif::point("sample.fill");
         let mut iterator = self.source.iter();
 
         while self.sample.len() < self.sample_size {
@@ -131,6 +137,8 @@ impl<'a, Key, Freq> FrequencyCounterBasedMinHeapSamples<'a, Key, Freq>
                     if !self.current_sample_key_ids.contains(pair.key()) {
                         let frequency = (self.frequency_counter)(pair.key_hash);
                         self.current_sample_key_ids.insert(*pair.key());
+                        #[cfg(feature = "cached_verif")]
+                        crate::cache::verif::tap(|| format!("sample.fill {} {} {}", pair.key(), pair.weight, frequency));
                         self.sample.push(SampledKey::new(frequency, pair));
                         filled_in = true;
                     }
@@ -152,12 +160,16 @@ impl<'a, Key, Freq> FrequencyCounterBasedMinHeapSamples<'a, Key, Freq>
         source: &DashMap<KeyId, WeightedKey<Key>>,
         sample_size: usize,
         frequency_counter: &Freq) -> (BinaryHeap<SampledKey>, HashSet<KeyId>) {
+        #[cfg(feature = "cached_verif")]
+        crate::cache::verif::point("sample.init");
         let mut counter = 0;
         let mut sample = BinaryHeap::new();
         let mut current_sample_key_ids = HashSet::new();
 
         for pair in source.iter().by_ref() {
             current_sample_key_ids.insert(*pair.key());
+            #[cfg(feature = "cached_verif")]
+            crate::cache::verif::tap(|| format!("sample.init {} {}", pair.key(), pair.weight));
             sample.push(SampledKey::new(frequency_counter(pair.value().key_hash), pair));
             counter += 1;
 
@@ -199,16 +211,24 @@ impl<Key> CacheWeight<Key>
     }
 
     pub(crate) fn get_weight_used(&self) -> Weight {
+        #[cfg(feature = "cached_verif")]
+        crate::cache::verif::point_need("wu.read", || "wu".to_string());
         *self.weight_used.read()
     }
 
     pub(crate) fn is_space_available_for(&self, weight: Weight) -> (Weight, bool) {
+        #[cfg(feature = "cached_verif")]
+        crate::cache::verif::point_need("wu.space", || "wu".to_string());
         let available = self.max_weight - (*self.weight_used.read());
         (available, available >= weight)
     }
 
     pub(crate) fn add(&self, key_description: &KeyDescription<Key>) {
+        #[cfg(feature = "cached_verif")]
+        crate::cache::verif::point("kw.insert");
         self.key_weights.insert(key_description.id, WeightedKey::new(key_description.clone_key(), key_description.hash, key_description.weight));
+        #[cfg(feature = "cached_verif")]
+        crate::cache::verif::point_need("wu.add", || "wu".to_string());
         let mut guard = self.weight_used.write();
         *guard += key_description.weight;
 
@@ -216,6 +236,8 @@ impl<Key> CacheWeight<Key>
     }
 
     pub(crate) fn update(&self, key_id: &KeyId, weight: Weight) -> bool {
+        #[cfg(feature = "cached_verif")]
+        crate::cache::verif::point_need("kw.update", || "wu".to_string());
         if let Some(mut existing) = self.key_weights.get_mut(key_id) {
             {
                 let mut guard = self.weight_used.write();
@@ -235,12 +257,20 @@ impl<Key> CacheWeight<Key>
 
     pub(crate) fn delete<DeleteHook>(&self, key_id: &KeyId, delete_hook: &DeleteHook)
         where DeleteHook: Fn(Key) {
+        #[cfg(feature = "cached_verif")]
+        crate::cache::verif::point("kw.remove");
         if let Some(weight_by_key_hash) = self.key_weights.remove(key_id) {
+            #[cfg(feature = "cached_verif")]
+            crate::cache::verif::point_need("wu.sub", || "wu".to_string());
             let mut guard = self.weight_used.write();
             *guard -= weight_by_key_hash.1.weight;
+            #[cfg(feature = "cached_verif")]
+            crate::cache::verif::hold(|| "wu".to_string());
             delete_hook(weight_by_key_hash.1.key);
 
             self.stats_counter.remove_weight(weight_by_key_hash.1.weight as u64);
+            #[cfg(feature = "cached_verif")]
+            crate::cache::verif::unhold(|| "wu".to_string());
         }
     }
 
@@ -249,6 +279,8 @@ impl<Key> CacheWeight<Key>
     }
 
     pub(crate) fn weight_of(&self, key_id: &KeyId) -> Option<Weight> {
+        #[cfg(feature = "cached_verif")]
+        crate::cache::verif::point("kw.weight_of");
         self.key_weights.get(key_id).map(|pair| pair.weight)
     }
 
@@ -259,7 +291,11 @@ impl<Key> CacheWeight<Key>
     }
 
     pub(crate) fn clear(&self) {
+        #[cfg(feature = "cached_verif")]
+        crate::cache::verif::point("shutdown.kw_clear");
         self.key_weights.clear();
+        #[cfg(feature = "cached_verif")]
+        crate::cache::verif::point_need("shutdown.wu_zero", || "wu".to_string());
         let mut guard = self.weight_used.write();
         *guard = 0;
     }
@@ -273,6 +309,30 @@ impl<Key> CacheWeight<Key>
             self.stats_counter.add_weight(!(difference - 1) as u64);
         }
     }
+}
+
+#[cfg(feature = "cached_verif")]
+impl<Key> CacheWeight<Key>
+    where Key: Hash + Eq + Send + Sync + Clone + 'static, {
+    pub(crate) fn verif_weight_used_lock(&self) -> &RwLock<Weight> {
+        &self.weight_used
+    }
+
+    /// All charged ids: (key id, key, key hash, weight).
+    pub(crate) fn verif_key_weights(&self) -> Vec<(KeyId, Key, KeyHash, Weight)> {
+        self.key_weights.iter().map(|pair| (*pair.key(), pair.value().key.clone(), pair.value().key_hash, pair.value().weight)).collect()
+    }
+}
+
+#[cfg(feature = "cached_verif")]
+pub fn verif_sampled_key_cmp(left: (KeyId, Weight, FrequencyEstimate), right: (KeyId, Weight, FrequencyEstimate)) -> (i8, bool) {
+    let (left, right) = (SampledKey::using(left.0, left.1, left.2), SampledKey::using(right.0, right.1, right.2));
+    let ordering = match left.cmp(&right) {
+        Ordering::Less => -1,
+        Ordering::Equal => 0,
+        Ordering::Greater => 1,
+    };
+    (ordering, left == right)
 }
 
 #[cfg(test)]
